@@ -198,8 +198,8 @@ theorem mapM_find_mem {view : List Blk} : ∀ {ids : List Nat} {plan : List Blk}
 
 /-- One step preserves the invariant — under the statement's hypothesis on the delays and with
     the duplicate filter's order preferring the higher compaction level among equal source sets. -/
-theorem step_inv (P : Params) (hP : P.ignoreDelay + P.lag < P.deleteDelay) (hT : P.levelTie = true)
-    (s s' : State) (a : Action) (hi : Inv P s) (h : step P s a = some s') : Inv P s' := by
+theorem step_inv (P : Params) (s s' : State) (hP : P.ignoreDelay + P.lag < P.deleteDelay ∨ s.gws = [])
+    (hT : P.levelTie = true) (a : Action) (hi : Inv P s) (h : step P s a = some s') : Inv P s' := by
   cases a with
   | ship =>
     simp only [step, Option.some.injEq] at h
@@ -271,7 +271,9 @@ theorem step_inv (P : Params) (hP : P.ignoreDelay + P.lag < P.deleteDelay) (hT :
             subst this
             have h1 := hmk' t hbt
             have h2 := (hi.gw_time g hg).2
-            omega
+            rcases hP with hP | hnil
+            · omega
+            · simp [hnil] at hg
           refine ⟨?_, ?_, ?_, ?_, hi.gw_time, ?_, ?_⟩
           · intro c hc
             exact hi.ids_lt c (List.mem_filter.mp hc).1
@@ -359,14 +361,55 @@ theorem init_inv (P : Params) (k : Nat) : Inv P (init k) := by
     obtain ⟨_, rfl⟩ := hg
     simp at hx
 
-theorem run_inv (P : Params) (hP : P.ignoreDelay + P.lag < P.deleteDelay) (hT : P.levelTie = true) :
-    ∀ (acts : List Action) (s s' : State), Inv P s → run P s acts = some s' → Inv P s'
-  | [], s, s', hi, h => by simp [run] at h; subst h; exact hi
-  | a :: as, s, s', hi, h => by
+/-- no step creates a gateway -/
+theorem step_gws_nil (P : Params) (s s' : State) (a : Action) (hn : s.gws = []) (h : step P s a = some s') :
+    s'.gws = [] := by
+  cases a <;> simp only [step] at h
+  case ship => simp only [Option.some.injEq] at h; subst h; exact hn
+  case compact ids =>
+    split at h <;> first | (simp at h; done) | (simp only [Option.some.injEq] at h; subst h; exact hn)
+  case markSource b r =>
+    split at h
+    · split at h
+      · simp only [Option.some.injEq] at h; subst h; exact hn
+      · simp at h
+    · simp at h
+  case gc b =>
+    split at h
+    · split at h
+      · simp only [Option.some.injEq] at h; subst h; exact hn
+      · simp at h
+    · simp at h
+  case clean b =>
+    split at h
+    · split at h
+      · split at h
+        · simp only [Option.some.injEq] at h; subst h; exact hn
+        · simp at h
+      · simp at h
+    · simp at h
+  case sync g =>
+    split at h
+    · rename_i hlt; simp [hn] at hlt
+    · simp at h
+  case tick d =>
+    split at h
+    · simp only [Option.some.injEq] at h; subst h; exact hn
+    · simp at h
+
+theorem run_inv (P : Params) (hT : P.levelTie = true) :
+    ∀ (acts : List Action) (s s' : State), (P.ignoreDelay + P.lag < P.deleteDelay ∨ s.gws = []) →
+      Inv P s → run P s acts = some s' → Inv P s'
+  | [], s, s', _, hi, h => by simp [run] at h; subst h; exact hi
+  | a :: as, s, s', hP, hi, h => by
     simp only [run] at h
     split at h
     · rename_i s1 hs1
-      exact run_inv P hP hT as s1 s' (step_inv P hP hT s s1 a hi hs1) h
+      have hP1 : P.ignoreDelay + P.lag < P.deleteDelay ∨ s1.gws = [] := by
+        rcases hP with hP | hn
+        · exact Or.inl hP
+        · exact Or.inr (step_gws_nil P s s1 a hn hs1)
+      exact run_inv P hT as s1 s' hP1 (step_inv P s s1 hP hT a hi hs1) h
     · simp at h
 
 /-! ## The property -/
@@ -385,7 +428,7 @@ def C34_full (levelTie : Bool) : Prop :=
     any number of blocks and gateways, whenever `ignoreDelay + lag < deleteDelay`. -/
 theorem C34 : C34_full true := by
   intro dd ig lag k acts s hP hrun g hg x hx
-  have hinv := run_inv _ hP rfl acts (init k) s (init_inv _ k) hrun
+  have hinv := run_inv _ rfl acts (init k) s (Or.inl hP) (init_inv _ k) hrun
   obtain ⟨b, hb, hl, hxb⟩ := hinv.gw_known g hg x hx
   simp only [serves, List.any_eq_true, Bool.and_eq_true, List.contains_iff_mem]
   exact ⟨b, hb, by simpa using hl, by simpa using hxb⟩
